@@ -1150,6 +1150,9 @@ class _Run(object):
         # logger
         if is_logging_call(e):
             self.an.op(self.fi, node, "logging call")
+            from .model import unsafe_log_extra
+            if unsafe_log_extra(e):
+                self.raise_("KeyError", node, "logging call with an `extra` mapping that may name a LogRecord attribute (Logger.makeRecord raises in the caller)")
             return NONE
         if isinstance(f, ast.Attribute) and f.attr in ("isEnabledFor", "getEffectiveLevel", "getChild", "setLevel") and \
                 ("logger" in dump(f.value).lower() or dump(f.value).lower().startswith("logging")):
